@@ -364,37 +364,59 @@ def run(ctx: Ctx, rs: RuleSet, tier: str):
   em = ctx.func(f'{AC}.ir_to_cst.code_for_expr.traverse')
   vp_ = em.params[0]
   BUILTIN = {'list', 'tuple', 'dict', 'set', 'frozenset'}
-  chain = None
-  for n in em.node.body:
-    if isinstance(n, ast.If):
-      chain = n
+  gem = ctx.cfg(em)
+
+  def _type_test(t):
+    # isinstance(value, <builtin container>) / type(value) in|is|== <...>
+    if isinstance(t, ast.Call) and unparse(t.func) == 'isinstance' and len(
+        t.args) == 2 and unparse(t.args[0]) == vp_ and ({unparse(x) for x in (
+            t.args[1].elts if isinstance(t.args[1], ast.Tuple)
+            else [t.args[1]])} & BUILTIN):
+      return 'loose'
+    if isinstance(t, ast.Compare) and len(t.ops) == 1 and unparse(
+        t.left) == f'type({vp_})' and isinstance(
+            t.ops[0], (ast.Is, ast.In, ast.Eq)):
+      return 'exact'
+    return None
+
+  tests = []  # (if node, 'loose'|'exact', nodes only reachable when it holds)
+  for m in gem.nodes():
+    if gem.kind[m] != 'if':
+      continue
+    kinds_ = {_type_test(x) for x in ast.walk(gem.stmt[m].test)} - {None}
+    if not kinds_:
+      continue
+    lab_p = roles.branch_when(gem.stmt[m].test,
+                              lambda x: _type_test(x) is not None)
+    if lab_p is None:
+      continue
+    pos = gem.reach([x for x, lab in gem.succ[m] if lab == lab_p],
+                    labels=cfg_lib.NO_EXC)
+    neg = gem.reach([x for x, lab in gem.succ[m] if lab != lab_p and
+                     lab != 'exc'], labels=cfg_lib.NO_EXC)
+    tests.append((m, 'exact' if kinds_ == {'exact'} else 'loose', pos - neg))
   sites = 0
-  while chain is not None:
-    emits = [c for st in chain.body for c in ast.walk(st)
-             if isinstance(c, ast.Attribute) and isinstance(
-                 c.value, ast.Name) and c.value.id == 'cst' and c.attr in (
-                     'List', 'Tuple', 'Dict', 'Set')]
-    if emits:
-      sites += 1
-      t = chain.test
-      loose = [c for c in ast.walk(t) if isinstance(c, ast.Call) and unparse(
-          c.func) == 'isinstance' and len(c.args) == 2 and unparse(
-              c.args[0]) == vp_ and ({unparse(x) for x in (
-                  c.args[1].elts if isinstance(c.args[1], ast.Tuple)
-                  else [c.args[1]])} & BUILTIN)]
-      exact = any(isinstance(c, ast.Compare) and unparse(c.left) == (
-          f'type({vp_})') and isinstance(c.ops[0], (ast.Is, ast.In, ast.Eq))
-                  for c in ast.walk(t))
-      ok = exact and not loose
-      rs.check(ok, rule, f'{em.qualname}:`{unparse(t)[:50]}`',
-               'exact type test' if ok else
-               f'`{unparse(t)[:60]}` also admits subclasses of the builtin '
-               'container: a NamedTuple argument is emitted as a plain tuple '
-               'and an OrderedDict / defaultdict as a plain dict - the '
-               'generated module runs but yields a value of another type',
-               ctx.loc(em, chain))
-    chain = chain.orelse[0] if len(chain.orelse) == 1 and isinstance(
-        chain.orelse[0], ast.If) else None
+  for n in gem.nodes():
+    if gem.kind[n] != 'stmt':
+      continue
+    disp = [c for c in cfg_lib.walk_node(gem, n) if isinstance(
+        c, ast.Attribute) and isinstance(c.value, ast.Name) and
+            c.value.id == 'cst' and c.attr in ('List', 'Tuple', 'Dict', 'Set')]
+    if not disp:
+      continue
+    gov = [(m, k) for m, k, region in tests if n in region]
+    if not gov:
+      continue
+    sites += 1
+    exact = any(k == 'exact' for _, k in gov)
+    t = gem.stmt[gov[0][0]].test
+    rs.check(exact, rule, f'{em.qualname}:cst.{disp[0].attr}',
+             'emitted only under an exact type test' if exact else
+             f'cst.{disp[0].attr} is emitted under `{unparse(t)[:60]}`, which '
+             'also admits subclasses of the builtin container: a NamedTuple '
+             'argument is emitted as a plain tuple and an OrderedDict / '
+             'defaultdict as a plain dict - the generated module runs but '
+             'yields a value of another type', ctx.loc(em, gem.stmt[n]))
   if sites < 2:
     raise AnalysisError(f'{em.qualname}: container display branches not found')
 
@@ -484,11 +506,29 @@ def run(ctx: Ctx, rs: RuleSet, tier: str):
            'converter accepts the value a ValueError is raised',
            ctx.loc(conv, conv.node))
   ce = ctx.func(f'{AC}.ir_to_cst.code_for_expr.traverse')
-  src_tests = []
-  for n in walk_function(ce.node):
-    if isinstance(n, ast.If):
-      body0 = n.body[0] if n.body else None
-      src_tests.append((unparse(n.test), isinstance(body0, ast.Raise)))
+  gce = ctx.cfg(ce)
+  from fdlstatic import dispatch
+
+  def _raises_when(atom_pred):
+    """(test text, the branch on which the atom holds always raises)."""
+    out = []
+    for n in gce.nodes():
+      if gce.kind[n] != 'if':
+        continue
+      lab_t = roles.branch_when(gce.stmt[n].test, atom_pred)
+      if lab_t is None:
+        continue
+      r = gce.reach([x for x, lab in gce.succ[n] if lab == lab_t],
+                    labels=cfg_lib.NO_EXC)
+      out.append((unparse(gce.stmt[n].test),
+                  gce.exit not in r and gce.raise_exit in r))
+    return out
+
+  src_tests = _raises_when(lambda t: isinstance(t, ast.Call) and unparse(
+      t.func) == 'isinstance' and len(t.args) == 2 and unparse(
+          t.args[1]).endswith('Buildable')) + _raises_when(
+              lambda t: isinstance(t, ast.Call) and unparse(t.func).endswith(
+                  'is_traversable'))
   rs.check(any('config_lib.Buildable' in t and r for t, r in src_tests), rule,
            f'{ce.qualname}:buildable',
            'a Buildable that was not lowered to IR raises',
